@@ -381,6 +381,17 @@ func toSMTPErr(err error) *smtp.SMTPError {
 		res.Message = smtpErr.Message
 	}
 
+	if res.Code/100 != 4 && res.Code/100 != 5 {
+		// A failure with a code of another class (e.g. "252" a downstream
+		// server answered DATA with), there is no such Status in a DSN.
+		res.Code = 554
+		res.EnhancedCode = smtp.EnhancedCode{5, 0, 0}
+		if exterrors.IsTemporaryOrUnspec(err) {
+			res.Code = 451
+			res.EnhancedCode = smtp.EnhancedCode{4, 0, 0}
+		}
+	}
+
 	return res
 }
 
